@@ -19,6 +19,9 @@ pub struct Reg {
 }
 
 thread_local! {
+    /// One-shot hook run from inside `Clone::clone` of the named component type (clone as an OUTER
+    /// access of a borrow nesting): (type name, callback).
+    pub static CLONE_HOOK: RefCell<Option<(&'static str, Box<dyn FnMut()>)>> = RefCell::new(None);
     pub static REG: RefCell<Reg> = RefCell::new(Reg { next_id: 1, ..Default::default() });
 }
 
@@ -33,6 +36,17 @@ pub fn born() -> u64 {
         r.state.insert(id, 1);
         id
     })
+}
+
+/// Called first thing in `Clone::clone` of the instrumented types: runs the pending one-shot hook.
+pub fn clone_hook(name: &'static str) {
+    let hook = CLONE_HOOK.with(|h| {
+        let mut h = h.borrow_mut();
+        if h.as_ref().map_or(false, |(n, _)| *n == name) { h.take() } else { None }
+    });
+    if let Some((_, mut f)) = hook {
+        f();
+    }
 }
 
 /// Clone::clone of a component without identity (no drop glue): counted, and a fault point like any other.
